@@ -70,6 +70,28 @@ def random_cases(rng, count):
     return out
 
 
+def extreme_cases(rng, count):
+    """Exactly representable maps of extreme magnitude (power-of-two scales, large integer shifts) on integer-valued series."""
+    out = []
+    for _ in range(count):
+        s = rng.choice(["PiecewiseConstant", "LinearFixed", "LinearAdaptive", "ExpFixed", "ExpAdaptive", "CubicSpline"])
+        xs, ys = lattice_series(rng, 3, 7, vals=tuple(range(-6, 7)), den=1)
+        xs = [Fraction(i) + xs[0].numerator // xs[0].denominator for i in range(len(xs))] if rng.random() < 0.5 else [Fraction(int(v * 2)) for v in xs]
+        n = rng.randint(2, 8)
+        e = rng.choice([-30, -20, -10, 10, 20, 30])
+        # shifts are chosen relative to the scale so that the mapped problem stays well conditioned in floating point
+        # (|shift| <= 2^20 jumps for the values, <= 2^10 gaps for the time axis): the relation is then exact to ~1e-10
+        ay = Fraction(2) ** e * rng.choice([-1, 1]) if rng.random() < 0.7 else Fraction(rng.choice([-4, -1, 1, 2]))
+        by = ay * rng.choice([0, 2 ** 20, -(2 ** 20), 3 * 2 ** 16, 2 ** 10])
+        cx = Fraction(2) ** rng.choice([-20, -8, 0, 8, 20])
+        dx = cx * rng.choice([0, 2 ** 10, -(2 ** 8), 96])
+        out.append({"fn": "rfa_rel", "rel": "affine_exact", "strategy": s, "x": [R(v) for v in xs], "y": [R(v) for v in ys], "n": n,
+                    "a": rng.choice([-1, rng.randint(0, n)]), "alpha": R(rng.choice([1, Fraction(1, 2)])), "beta": R(rng.choice([0, Fraction(1, 2), 1])),
+                    "exp": R(rng.choice([1, 2, 3])), "smooth": rng.choice([1, 2]), "m": len(xs), "j": 0, "radius": 1,
+                    "maps": [R(ay), R(by), R(cx), R(dx)], "nonneg": True})
+    return out
+
+
 def run():
     c = Check("C07")
     r = c.model("MC_RfaRel", "MC_RfaRel_%s.cfg" % c.tier, timeout=3400)
@@ -78,6 +100,7 @@ def run():
         cases += from_emission(j)
     lattice = len(cases)
     cases += random_cases(c.rng, 15000 if c.thorough else 2000)
+    cases += extreme_cases(c.rng, 6000 if c.thorough else 800)
     if c.replay_path:
         ev = json.load(open(c.replay_path))["event"]
         cases = [{k: v for k, v in ev.items() if k not in ("runs", "outcome", "tags", "id")}]
@@ -105,7 +128,8 @@ def run():
               "a in {2,n}; perturbation of every single average by {+1,-3}; y, reversed y and their sum; unit vectors - relations proved "
               "on the model exactly (MC_RfaRel) and every tuple of runs replayed on the real code (plus cubic-spline variants); "
               "harness-originated: seeded random series with generic dyadic (a,b,c,d) for non-adaptive strategies and power-of-two "
-              "scales / integer shifts of integer series for adaptive ones, real exponents. Relations are judged by TLC on the recorded "
+              "scales / integer shifts of integer series for adaptive ones, real exponents; and exactly representable maps of extreme "
+              "magnitude (scales 2^-30..2^30, shifts up to 2^20) on integer series for all strategies, mapped back exactly before comparison. Relations are judged by TLC on the recorded "
               "values in 1e-5 fixed point. non-trivial = >= 3 points with >= 2 distinct values; distinct by full input")
     c.coverage_extra = {"lattice_cases_from_tlc": lattice, "harness_originated_cases": len(cases) - lattice}
     c.assumptions = ["TLC 1.8, CommunityModules Json/IOUtils", "relations judged at 1e-5 absolute (+ slack bounding the projection error)",
